@@ -3,12 +3,11 @@
 (* abstracted to the set of bound names; a loop runs zero times or once (binding is monotone,   *)
 (* so further iterations add no path); an `if` takes either branch.  On leaving a loop its      *)
 (* target names become dead until rebound.  TLC enumerates every path of every program.         *)
-EXTENDS Naturals, Sequences, FiniteSets, TLC, Json, IOUtils
+EXTENDS MetricsProtocol, Json, IOUtils
 Progs == JsonDeserialize(IOEnv.SCOPE_BATCH).progs
 Api == {"Tensor", "Fiber", "Metrics", "Traffic", "Format", "Compute", "createCanvas", "displayCanvas",
         "LeaderFollowerIntersector", "SkipAheadIntersector", "TwoFingerIntersector",
         "enumerate", "len", "int", "min", "max", "set", "float"}
-SeqSet(s) == {s[i] : i \in 1..Len(s)}
 RECURSIVE Reads(_)      \* names read by an expression (lambda parameters excluded inside their lambda)
 Reads(e) ==
   CASE e.e = "name" -> {e.id}
@@ -23,13 +22,13 @@ Reads(e) ==
     [] e.e = "lambda" -> Reads(e.body) \ SeqSet(e.params)
 RECURSIVE Binds(_)
 Binds(p) == IF p.p = "name" THEN {p.id} ELSE UNION {Binds(p.elts[i]) : i \in 1..Len(p.elts)}
-VARIABLES pid, pc, defined, dead, depth
-vars == <<pid, pc, defined, dead, depth>>
+VARIABLES pid, pc, defined, dead, depth, skipped, mp
+vars == <<pid, pc, defined, dead, depth, skipped, mp>>
 Code == Progs[pid].code
 I == Code[pc]
-Init == /\ pid \in 1..Len(Progs) /\ pc = 1 /\ dead = {} /\ depth = 0
+Init == /\ pid \in 1..Len(Progs) /\ pc = 1 /\ dead = {} /\ depth = 0 /\ skipped = FALSE /\ mp = MpInit
         /\ defined = SeqSet(Progs[pid].user) \cup Api
-Goto(n) == pc' = n /\ UNCHANGED <<pid, defined, dead, depth>>
+Goto(n) == pc' = n /\ UNCHANGED <<pid, defined, dead, depth, skipped>>
 ReadsOf(i) == CASE i.op = "assign" -> Reads(i.e)
                 [] i.op = "setitem" -> Reads(i.obj) \cup Reads(i.key) \cup Reads(i.e)
                 [] i.op = "aug" -> Reads(i.dst) \cup Reads(i.e)
@@ -40,24 +39,27 @@ ReadsOf(i) == CASE i.op = "assign" -> Reads(i.e)
 Unbound == ReadsOf(I) \ defined
 Scoped == ReadsOf(I) \cap dead
 Assign == /\ I.op = "assign"
-          /\ defined' = defined \cup {I.dst} /\ dead' = dead \ {I.dst} /\ pc' = pc + 1 /\ UNCHANGED <<pid, depth>>
+          /\ defined' = defined \cup {I.dst} /\ dead' = dead \ {I.dst} /\ pc' = pc + 1 /\ UNCHANGED <<pid, depth, skipped>>
 Plain == I.op \in {"setitem", "aug", "expr"} /\ Goto(pc + 1)
-ForSkip == I.op = "for" /\ Goto(I.end + 1)                             \* zero iterations: nothing is bound
+ForSkip == I.op = "for" /\ pc' = I.end + 1 /\ skipped' = TRUE /\ UNCHANGED <<pid, defined, dead, depth>>                             \* zero iterations: nothing is bound
 ForEnter == /\ I.op = "for"
             /\ defined' = defined \cup Binds(I.tgt) /\ dead' = dead \ Binds(I.tgt)
-            /\ pc' = pc + 1 /\ depth' = depth + 1 /\ UNCHANGED pid
+            /\ pc' = pc + 1 /\ depth' = depth + 1 /\ UNCHANGED <<pid, skipped>>
 EndFor == /\ I.op = "endfor"
           /\ dead' = dead \cup Binds(Code[I.start - 1].tgt)              \* loop variables die with the loop
-          /\ pc' = pc + 1 /\ depth' = depth - 1 /\ UNCHANGED <<pid, defined>>
+          /\ pc' = pc + 1 /\ depth' = depth - 1 /\ UNCHANGED <<pid, defined, skipped>>
 IfThen == I.op = "if" /\ Goto(pc + 1)
 IfElse == I.op = "if" /\ Goto(I.else)
 Jump == I.op = "jump" /\ Goto(I.to)
 \* a read of an unbound name stops the path (the program would raise NameError there)
-Step == Unbound = {} /\ (Assign \/ Plain \/ ForSkip \/ ForEnter \/ EndFor \/ IfThen \/ IfElse \/ Jump)
+Step == /\ Unbound = {} /\ (Assign \/ Plain \/ ForSkip \/ ForEnter \/ EndFor \/ IfThen \/ IfElse \/ Jump)
+        \* C12 on all paths: the protocol monitor, strict about feeding on the path that entered every loop
+        /\ mp' = IF Progs[pid].protocol THEN MpStep(mp, I, depth > 0, ~skipped) ELSE mp
 Spec == Init /\ [][Step]_vars
 ReadsBound == Unbound = {}
 LoopVarsScoped == Scoped = {}
 \* batch verdict: one line per offending state, the invariant itself never fails
 Verdict == /\ (Unbound # {} => PrintT("SCOPE|" \o ToString(pid) \o "|unbound|" \o (CHOOSE x \in Unbound : TRUE) \o "|" \o ToString(pc)))
+           /\ (mp.bad # "" => PrintT("SCOPE|" \o ToString(pid) \o "|protocol|" \o mp.bad \o "|" \o ToString(pc)))
            /\ ((Unbound = {} /\ Scoped # {}) => PrintT("SCOPE|" \o ToString(pid) \o "|loopvar|" \o (CHOOSE x \in Scoped : TRUE) \o "|" \o ToString(pc)))
 =============================================================================
